@@ -43,6 +43,11 @@ def decode(fmt, data, args=(), keep=False):
         f.write(data)
     if os.path.exists(dst):
         os.remove(dst)
+    if _COUNTER[0] % 2:
+        # every other run finds its output file already there, longer than any image it will write is not needed: a
+        # few bytes of another format are enough to show whether the decoder REPLACES what it finds
+        with open(dst, "wb") as f:
+            f.write(b"P6\n1 1\n255\n\x00\x00\x00 stale output of an earlier run\n" * 3)
     argv = list(args) + [src, dst]
     res = {"status": "ok", "exc": None, "code": None}
     saved = (sys.stdout, sys.stderr)
